@@ -52,6 +52,8 @@ type Replay struct {
 	B      int    `json:"recordMaxSize"`
 	Rpe    int    `json:"eventMaxRecords"`
 	Format string `json:"format"` // pure | text | k8json | logfmt
+	Aux    bool   `json:"aux,omitempty"`    // the watched directory also holds aux.log, which no schema matches: a second descriptor (scanned, merged, saved, loaded) without a worker
+	Base   int64  `json:"base,omitempty"`   // the file begins with a hole of this many bytes and scanner.json says they are shipped: every offset the scanner handles is beyond it (2^31, 2^32)
 	Stream string `json:"stream,omitempty"` // "" = the scanner with the harness as its consumer; collector = client/collector.Run with a stand-in api.Client
 	Init   []byte `json:"init"`   // content of the file when the scanner first starts
 	Ops    []Op   `json:"ops"`
@@ -189,6 +191,7 @@ type driver struct {
 	oid    string       // its descriptor id
 	oo     *oracle      // the property on its hand-over stream
 	gen    *lineGen
+	auxSeen int64 // size of aux.log at the last scan (start or sync)
 	rotPending bool // the file at the path was replaced while the scanner runs and no sync has followed yet
 
 	ids  []string // file identities seen, in order
@@ -204,13 +207,19 @@ func (d *driver) cfg() *scanner.Config {
 	if d.rp.Format == "text" {
 		dateFmts = []string{"DD/MMM/YYYY:HH:mm:ss ZZZZ"} // (a date format is an error for the other data formats)
 	}
+	var excl []string
+	if d.rp.Aux {
+		excl = []string{".*/aac\\.log$"}
+	}
 	return &scanner.Config{
 		IncludePaths:           []string{filepath.Join(d.dir, "logs", "*.log")},
+		ExcludeMatchers:        excl,
 		SyncWorkersIntervalSec: 3600,
 		StateStoreIntervalSec:  3600,
 		RecordMaxSizeBytes:     d.rp.B,
 		EventMaxRecords:        d.rp.Rpe,
-		Schemas: []*scanner.SchemaConfig{{PathMatcher: "/*(?:.+/)*(?P<file>.+\\..+)", DataFormat: parser.DataFormat(d.rp.Format),
+		// (with aux.log in the directory the schema names app.log only: aux.log is scanned, has a descriptor, no worker)
+		Schemas: []*scanner.SchemaConfig{{PathMatcher: map[bool]string{false: "/*(?:.+/)*(?P<file>.+\\..+)", true: "/*(?:.+/)*(?P<file>app\\..+)"}[d.rp.Aux], DataFormat: parser.DataFormat(d.rp.Format),
 			DateFormats: dateFmts,
 			Meta: scanner.Meta{Tags: map[string]string{"file": "{file}"}, Fields: map[string]string{"level": "lvl"}}}},
 	}
@@ -304,6 +313,10 @@ func (d *driver) settle(who int, where string) bool {
 		case ev := <-d.p.events:
 			var recs [][]byte
 			for _, r := range ev.Records {
+				if r == nil {
+					d.other(5, "event-with-a-missing-record", fmt.Sprintf("an event of %d records holds a nil record", len(ev.Records)))
+					return false
+				}
 				recs = append(recs, append([]byte{}, r.Data...))
 			}
 			var ext [][]byte
@@ -317,6 +330,10 @@ func (d *driver) settle(who int, where string) bool {
 			d.obs = append(d.obs, GApp("OHand", gRecs(ext)))
 			return true
 		case <-tick.C:
+			if who == wCur && d.curStopped() {
+				d.other(7, "worker-returned-on-its-own", "the worker of the file at the path returned (not stopped, not told to stop at EOF) "+where)
+				return false
+			}
 			if who == wOld && d.oldStopped() {
 				d.ophase = "done"
 				d.tag["rotated-worker-returned"]++
@@ -340,6 +357,14 @@ func (d *driver) oldWorker() *scanner.VC17Worker {
 		}
 	}
 	return nil
+}
+func (d *driver) curStopped() bool {
+	for _, w := range d.p.h.Workers() {
+		if w.Current && w.File == d.path && w.Stopped {
+			return true
+		}
+	}
+	return false
 }
 func (d *driver) oldStopped() bool {
 	w := d.oldWorker()
@@ -365,18 +390,62 @@ func (d *driver) readPersisted() (*pdesc, error) {
 	if err := json.Unmarshal(data, &l); err != nil {
 		return nil, fmt.Errorf("scanner.json: %v (%q)", err, data)
 	}
-	if len(l) != 1 {
-		return nil, fmt.Errorf("scanner.json: %d descriptors (%q)", len(l), data)
+	var main *pdesc
+	aux := 0
+	for i := range l {
+		switch l[i].File {
+		case d.path:
+			if main != nil {
+				d.o.fail("two-descriptors-of-one-path-in-the-saved-state", fmt.Sprintf("%q", data))
+				return nil, nil
+			}
+			main = &l[i]
+		case d.auxPath():
+			aux++
+			if l[i].Offset != 0 || l[i].LastSeenSize != d.auxSeen {
+				d.o.fail("other-descriptor-lost-or-changed", fmt.Sprintf("scanner.json holds Offset %d, LastSeenSize %d for aux.log; nothing of it was shipped and its size at the last scan was %d", l[i].Offset, l[i].LastSeenSize, d.auxSeen))
+			}
+		default:
+			return nil, fmt.Errorf("scanner.json: a descriptor of %q (%q)", l[i].File, data)
+		}
 	}
-	return &l[0], nil
+	if d.rp.Aux && aux != 1 {
+		d.o.fail("other-descriptor-lost-or-changed", fmt.Sprintf("scanner.json holds %d descriptors of aux.log", aux))
+	}
+	if main == nil {
+		d.o.fail("path-descriptor-missing-in-the-saved-state", fmt.Sprintf("scanner.json holds no descriptor of the watched path: %q", data))
+		return nil, nil
+	}
+	main.Offset -= d.rp.Base
+	main.LastSeenSize -= d.rp.Base
+	if main.Offset < 0 || main.LastSeenSize < 0 {
+		d.o.fail("saved-offset-before-the-start-offset", fmt.Sprintf("scanner.json holds Offset %d, LastSeenSize %d for a file whose first %d bytes the state it started from says are shipped", main.Offset+d.rp.Base, main.LastSeenSize+d.rp.Base, d.rp.Base))
+		return nil, nil
+	}
+	return main, nil
 }
 
+func (d *driver) scannedAux() {
+	if fi, err := os.Stat(d.auxPath()); err == nil {
+		d.auxSeen = fi.Size()
+	}
+}
+func (d *driver) auxPath() string { return filepath.Join(d.dir, "logs", "aux.log") }
+
+// descOffset: the offset of the path's descriptor in the scanner's map (less the hole the file begins with)
 func (d *driver) descOffset() (int64, bool) {
-	ds := d.p.h.Descs()
-	if len(ds) != 1 {
+	var off int64
+	n := 0
+	for _, x := range d.p.h.Descs() {
+		if x[1].(string) == d.path {
+			off = x[2].(int64)
+			n++
+		}
+	}
+	if n != 1 {
 		return 0, false
 	}
-	return ds[0][2].(int64), true
+	return off - d.rp.Base, true
 }
 
 // idOf numbers the file identities in the order they are first seen (the first file is 0)
@@ -426,6 +495,23 @@ func (d *driver) apply(op Op) bool {
 		}
 		d.content = append(d.content, op.Data...)
 		d.kevs = append(d.kevs, GApp("KAppend", GBytes(op.Data)))
+	case "aux": // aux.log grows (or is cut back to nothing: Mode truncate); no event of the model
+		if !d.rp.Aux {
+			return true
+		}
+		fl := os.O_WRONLY | os.O_APPEND
+		if op.Mode == "truncate" {
+			fl = os.O_WRONLY | os.O_TRUNC
+		}
+		f, err := os.OpenFile(d.auxPath(), fl, 0644)
+		if err == nil {
+			_, err = f.Write(op.Data)
+			f.Close()
+		}
+		if err != nil {
+			d.err = err
+			return false
+		}
 	case "run":
 		d.kevs = append(d.kevs, "KRun")
 		if d.phase != "sleep" {
@@ -476,6 +562,10 @@ func (d *driver) apply(op Op) bool {
 			return false
 		}
 		pd, err := d.readPersisted()
+		if err == nil && pd == nil && d.o.viol != nil {
+			d.obs = append(d.obs, GApp("OOther", GNat(6))) // the saved state is not what a scanner of one path writes: reported by the oracle
+			return false
+		}
 		if err != nil || pd == nil {
 			d.err = fmt.Errorf("persisted state unreadable: %v", err)
 			return false
@@ -493,6 +583,11 @@ func (d *driver) apply(op Op) bool {
 		}
 		d.obs = append(d.obs, "OExit")
 		pd, err := d.readPersisted()
+		if err == nil && pd == nil && d.o.viol != nil {
+			d.obs = append(d.obs, GApp("OOther", GNat(6)))
+			d.phase, d.graceful = "down", true
+			return false
+		}
 		if err != nil || pd == nil {
 			d.err = fmt.Errorf("persisted state unreadable after the stop: %v", err)
 			return false
@@ -520,9 +615,14 @@ func (d *driver) apply(op Op) bool {
 			d.err = err
 			return false
 		}
+		d.scannedAux()
 		off, ok := d.descOffset()
 		if !ok {
 			d.other(4, "descriptor-missing", "no single descriptor after the start")
+			return false
+		}
+		if off < 0 {
+			d.other(6, "restart-before-the-saved-offset", fmt.Sprintf("the saved state says %d bytes are shipped (the hole the file begins with); the worker starts at %d", d.rp.Base, off+d.rp.Base))
 			return false
 		}
 		d.obs = append(d.obs, GApp("ORestart", GNat(int(off))))
@@ -575,6 +675,7 @@ func (d *driver) apply(op Op) bool {
 			}
 		}
 		d.p.h.Sync()
+		d.scannedAux()
 		d.rotPending = false
 		fresh := false
 		for _, w := range d.p.h.Workers() {
@@ -644,8 +745,8 @@ func (d *driver) apply(op Op) bool {
 			return false
 		}
 		rest := append([]string{}, d.obs[n0:]...)
-		d.obs = append(append(d.obs[:n0], GApp("OOffset", GNat(int(w.Offset)))), rest...)
-		d.oo.offset(w.Offset)
+		d.obs = append(append(d.obs[:n0], GApp("OOffset", GNat(int(w.Offset-d.rp.Base)))), rest...)
+		d.oo.offset(w.Offset - d.rp.Base)
 	default:
 		d.err = fmt.Errorf("unknown op %q", op.K)
 		return false
@@ -672,6 +773,7 @@ type oracle struct {
 	savedId   int  // identity of the file the last save described
 	workerId  int  // identity of the file the current worker has open
 	split, partial, resend bool
+	proj, raw             bool // k8json/logfmt: a record that is the log member of its line / a record shipped as it stands
 }
 
 // classes of recorded findings: they must not hide another violation of the same case
@@ -739,20 +841,25 @@ func (o *oracle) hand(recs [][]byte, file string, d *driver) [][]byte {
 		}
 		x := r
 		if jsonFmt {
-			n := bytes.IndexByte(f[minI(o.pos, int64(len(f))):], '\n')
-			if n < 0 {
-				o.fail("payload-not-the-next-file-bytes", fmt.Sprintf("record %q handed over at offset %d; no complete line follows in the file", trunc(r), o.pos))
-				bad = true
-				ext = append(ext, r)
-				continue
+			// the record stands for the whole next line if that line is a json log line (then its payload is the
+			// log member), else for itself: a line that does not parse, or a piece of a line longer than the
+			// record limit, is shipped as it stands
+			if n := bytes.IndexByte(f[minI(o.pos, int64(len(f))):], '\n'); n >= 0 {
+				line := f[o.pos : o.pos+int64(n)+1]
+				if want, ok := refLog(line); ok {
+					if bytes.Equal(want, r) {
+						x = line
+						o.top().proj = true
+					} else if bytes.Equal(line, r) || len(line) <= B {
+						o.fail("payload-not-the-projection-of-the-next-line", fmt.Sprintf("record %q handed over at offset %d; the next line is %q, whose log field reads %q", trunc(r), o.pos, trunc(line), trunc(want)))
+						bad = true
+						ext = append(ext, r)
+						continue
+					}
+				}
 			}
-			x = f[o.pos : o.pos+int64(n)+1]
-			want, ok := refLog(x)
-			if !ok || !bytes.Equal(want, r) {
-				o.fail("payload-not-the-projection-of-the-next-line", fmt.Sprintf("record %q handed over at offset %d; the next line is %q, whose log field reads %q", trunc(r), o.pos, trunc(x), trunc(want)))
-				bad = true
-				ext = append(ext, r)
-				continue
+			if len(x) == len(r) {
+				o.top().raw = true
 			}
 		}
 		end := o.pos + int64(len(x))
@@ -908,21 +1015,27 @@ var alphabet = []byte("abcdefghijklmnopqrstuvwxyz0123456789 \t\r=\"{}\x00\x01\x7
 type lineGen struct {
 	format string
 	n      int
+	last   []byte
 }
 
-// refLog is the harness' own reading of a k8json/logfmt line: the value of its leading "log" member
-// (escapes \" \\ \/ \b \f \n \r \t \u00XX; anything else as it stands). It shares no code with encoding/json.
+// refLog is the harness' own reading of a k8json/logfmt line: if the line is exactly
+//   {"log":<string>,"stream":"<letters>","time":"<date>"}\n
+// it returns the value of the log member (escapes \" \\ \/ \b \f \n \r \t \u00XX; anything else as it stands),
+// else false: such a line (or piece of a line) is shipped as it stands. It shares no code with encoding/json;
+// the generator makes only lines of this shape and lines that are no JSON at all.
 func refLog(line []byte) ([]byte, bool) {
 	const pre = `{"log":"`
 	if !bytes.HasPrefix(line, []byte(pre)) {
 		return nil, false
 	}
 	var out []byte
-	for i := len(pre); i < len(line); i++ {
+	i := len(pre)
+	closed := false
+	for ; i < len(line) && !closed; i++ {
 		c := line[i]
 		switch {
 		case c == '"':
-			return out, true
+			closed = true
 		case c == '\\':
 			i++
 			if i >= len(line) {
@@ -954,11 +1067,38 @@ func refLog(line []byte) ([]byte, bool) {
 			default:
 				return nil, false
 			}
+		case c < 0x20:
+			return nil, false
 		default:
 			out = append(out, c)
 		}
 	}
-	return nil, false
+	if !closed {
+		return nil, false
+	}
+	rest := line[i:]
+	const mid = `,"stream":"`
+	if !bytes.HasPrefix(rest, []byte(mid)) {
+		return nil, false
+	}
+	rest = rest[len(mid):]
+	k := 0
+	for k < len(rest) && rest[k] >= 'a' && rest[k] <= 'z' {
+		k++
+	}
+	const tm = `","time":"`
+	if !bytes.HasPrefix(rest[k:], []byte(tm)) {
+		return nil, false
+	}
+	rest = rest[k+len(tm):]
+	k = 0
+	for k < len(rest) && (rest[k] >= '0' && rest[k] <= '9' || rest[k] == '-' || rest[k] == ':' || rest[k] == '.' || rest[k] == 'T' || rest[k] == 'Z') {
+		k++
+	}
+	if k < 20 || string(rest[k:]) != "\"}\n" {
+		return nil, false
+	}
+	return out, true
 }
 
 var msgAlphabet = []byte("abcdefghijklmnopqrstuvwxyz0123456789 =\"\\/{}:,\t")
@@ -988,7 +1128,19 @@ func jsonString(msg []byte) []byte {
 
 func (g *lineGen) line(r *Rng, B int) []byte {
 	if g.format != "k8json" && g.format != "logfmt" {
+		if g.last != nil && r.Chance(1, 10) {
+			// equal neighbours: the line before once more, or a prefix of it as a line of its own
+			l := g.last
+			if r.Chance(1, 2) && len(l) > 2 {
+				l = append(append([]byte{}, l[:r.Range(1, len(l)-1)]...), '\n')
+			}
+			return l
+		}
 		l := genLine(r, B)
+		if r.Chance(1, 16) {
+			l = genLongLine(r, B)
+		}
+		g.last = l
 		if g.format == "text" && r.Chance(1, 4) && len(l)+27 < B {
 			// a line that begins with a date in the configured format (the record's time is not part of C17)
 			l = append([]byte(fmt.Sprintf("%02d/Mar/2019:10:%02d:%02d +0000 ", 1+r.Intn(28), r.Intn(60), r.Intn(60))), l...)
@@ -996,9 +1148,15 @@ func (g *lineGen) line(r *Rng, B int) []byte {
 		return l
 	}
 	g.n++
+	if r.Chance(1, 12) {
+		// a line that is no JSON at all (a panic message, a tool that writes plain text into the container log)
+		return append(append([]byte("# "), r.Bytes(r.Range(0, 30), []byte("abcdefghij klmnop{}\":,"))...), '\n')
+	}
 	var msg []byte
-	switch x := r.Intn(10); {
+	switch x := r.Intn(12); {
 	case x < 1:
+	case x >= 10: // a line longer than the record limit (docker cuts messages at 16 KiB, the envelope comes on top)
+		msg = r.Bytes(r.PickInt(B-60, B-1, B, B+1, 2*B), []byte("abcdefghijklmnopqrstuvwxyz \"\\"))
 	case x < 3 && g.format == "logfmt":
 		msg = []byte(fmt.Sprintf("level=%s msg=\"%s\" n=%d", r.PickStr("info", "warn", "error"), r.Bytes(r.Range(0, 12), []byte("abc xyz")), g.n))
 	case x < 5:
@@ -1041,6 +1199,12 @@ func genLine(r *Rng, B int) []byte {
 	return append(l, '\n')
 }
 
+// lengths (with the newline) at multiples of the buffer
+func genLongLine(r *Rng, B int) []byte {
+	n := r.PickInt(2*B-1, 2*B, 2*B+1, 3*B, 3*B+1)
+	return append(r.Bytes(n-1, alphabet), '\n')
+}
+
 // genText: lines; cut into pieces anywhere; maybe no final newline
 func (g *lineGen) pieces(r *Rng, B, budget int) [][]byte {
 	var text []byte
@@ -1054,9 +1218,8 @@ func (g *lineGen) pieces(r *Rng, B, budget int) [][]byte {
 			break
 		}
 	}
-	if len(text) > 0 && r.Chance(1, 4) && g.format != "k8json" && g.format != "logfmt" {
-		// (a k8json/logfmt line joined with the next one would not be JSON: the worker returns with an error
-		// at such a line, see docs/C17.md; their EOF-inside-a-line comes from the cuts below only)
+	if len(text) > 0 && r.Chance(1, 4) {
+		// (for k8json/logfmt the line then joins the next one: not a json log line, shipped as it stands)
 		text = text[:len(text)-1-r.Intn(minInt(len(text), 3))]
 	}
 	var pieces [][]byte
@@ -1082,6 +1245,14 @@ func minInt(a, b int) int {
 }
 
 func (d *driver) draw(r *Rng, pending *[][]byte, total *int) Op {
+	op := d.draw1(r, pending, total)
+	if op.K == "replace" && d.rp.Base > 0 {
+		return Op{K: "sync"} // (a new file would not begin with the hole)
+	}
+	return op
+}
+
+func (d *driver) draw1(r *Rng, pending *[][]byte, total *int) Op {
 	nextPiece := func() (Op, bool) {
 		if len(*pending) == 0 && *total < 420 {
 			*pending = d.gen.pieces(r, d.rp.B, r.PickInt(20, 80, 150, 260))
@@ -1095,6 +1266,12 @@ func (d *driver) draw(r *Rng, pending *[][]byte, total *int) Op {
 		return Op{K: "app", Data: p}, true
 	}
 	x := r.Intn(100)
+	if d.rp.Aux && r.Chance(1, 12) {
+		if r.Chance(1, 5) {
+			return Op{K: "aux", Mode: "truncate", Data: r.Bytes(r.Range(0, 5), alphabet)}
+		}
+		return Op{K: "aux", Data: r.Bytes(r.Range(1, 30), alphabet)}
+	}
 	if d.phase != "down" {
 		// a rotation that has not been noticed yet: the sync is likely to come next
 		if d.rotPending && r.Chance(3, 5) {
@@ -1174,11 +1351,6 @@ func (d *driver) draw(r *Rng, pending *[][]byte, total *int) Op {
 			return Op{K: "persist"} // no process: nothing happens
 		default:
 			*pending = nil
-			if d.rp.Format == "k8json" || d.rp.Format == "logfmt" {
-				// (a new file that keeps the identity is continued at the old offset - the recorded finding -, i.e. in
-				// the middle of a JSON line here: the worker returns with an error; pure and text cover that finding)
-				return Op{K: "replace", Mode: "rename", Data: flat(d.gen.pieces(r, d.rp.B, r.PickInt(10, 60, 200, 300)))}
-			}
 			return Op{K: "replace", Mode: r.PickStr("rename", "delete", "truncate"), Data: flat(d.gen.pieces(r, d.rp.B, r.PickInt(10, 60, 200, 300)))}
 		}
 	}
@@ -1203,8 +1375,45 @@ func runCase(rp *Replay, r *Rng) (*Case, error) {
 	}
 	d := &driver{rp: rp, dir: dir, path: filepath.Join(dir, "logs", "app.log"), tag: map[string]int{}, phase: "down", gen: &lineGen{format: rp.Format}}
 	d.o.ends = map[int64]bool{0: true}
-	if err := d.writeFile(rp.Init, false); err != nil {
+	if rp.Base > 0 {
+		// a hole of Base bytes, then the content; the saved state says the hole is shipped
+		f, err := os.OpenFile(d.path, os.O_WRONLY|os.O_CREATE|os.O_EXCL, 0644)
+		if err == nil {
+			err = f.Truncate(rp.Base)
+			f.Close()
+		}
+		if err == nil {
+			err = d.writeFile(rp.Init, true)
+		}
+		if err == nil {
+			err = os.MkdirAll(filepath.Join(dir, "state"), 0755)
+		}
+		if err != nil {
+			return nil, err
+		}
+		st, _ := json.Marshal([]pdesc{{Id: d.fileId(), File: d.path, Offset: rp.Base, LastSeenSize: rp.Base + int64(len(rp.Init))}})
+		if err := ioutil.WriteFile(filepath.Join(dir, "state", "scanner.json"), st, 0644); err != nil {
+			return nil, err
+		}
+	} else if err := d.writeFile(rp.Init, false); err != nil {
 		return nil, err
+	}
+	if rp.Aux {
+		if err := ioutil.WriteFile(d.auxPath(), []byte("a line of another file\n"), 0644); err != nil {
+			return nil, err
+		}
+		// two more matches of the include pattern that the scan has to step over, sorted before the path: a
+		// directory and a link to nothing
+		if err := os.Mkdir(filepath.Join(dir, "logs", "aaa.log"), 0755); err != nil {
+			return nil, err
+		}
+		if err := os.Symlink(filepath.Join(dir, "logs", "nowhere"), filepath.Join(dir, "logs", "aab.log")); err != nil {
+			return nil, err
+		}
+		// ... and a file the configuration excludes
+		if err := ioutil.WriteFile(filepath.Join(dir, "logs", "aac.log"), []byte("excluded\n"), 0644); err != nil {
+			return nil, err
+		}
 	}
 	d.content = append([]byte{}, rp.Init...)
 	d.idOf(d.fileId())
@@ -1247,6 +1456,18 @@ func runCase(rp *Replay, r *Rng) (*Case, error) {
 	}
 	if d.o.resend {
 		tags = append(tags, "resend-after-crash")
+	}
+	if d.o.proj {
+		tags = append(tags, "json-line-projected")
+	}
+	if d.o.raw && (rp.Format == "k8json" || rp.Format == "logfmt") {
+		tags = append(tags, "json-line-shipped-raw")
+	}
+	if rp.Aux {
+		tags = append(tags, "second-descriptor")
+	}
+	if rp.Base > 0 {
+		tags = append(tags, fmt.Sprintf("base:2^%d", map[bool]int{true: 31, false: 32}[rp.Base < 1<<32-1]))
 	}
 	return &Case{
 		Coq:        GApp("KCase", GNat(rp.B), GNat(rp.Rpe), GBytes(rp.Init), GList(d.kevs), GList(d.obs)),
@@ -1303,6 +1524,30 @@ func corpus() []*Replay {
 			Ops: []Op{{K: "start"}, {K: "confirm"}, {K: "app", Data: bs(`ee","stream":"stdout","time":"2019-03-01T10:00:02Z"}` + "\n")}, {K: "run"}, {K: "confirm"}, {K: "persist"}, {K: "stop"}, {K: "start"}}},
 		{B: 256, Rpe: 1, Format: "logfmt", Init: bs(`{"log":"level=info msg=\"hi\" n=1","stream":"stdout","time":"2019-03-01T10:00:00Z"}` + "\n"),
 			Ops: []Op{{K: "start"}, {K: "confirm"}, {K: "crash"}, {K: "start"}, {K: "confirm"}}},
+		// a k8s json log line longer than the record limit (the reader splits it, no piece is JSON) and a line that is no
+		// JSON at all: shipped as they stand, the lines around them as their log members
+		{B: 64, Rpe: 10, Format: "k8json", Init: bs(`{"log":"before\n","stream":"o","time":"2019-03-01T10:00:00Z"}` + "\n" + `{"log":"` + strings.Repeat("x", 60) + `\n","stream":"stdout","time":"2019-03-01T10:00:00Z"}` + "\n" + `{"log":"after\n","stream":"o","time":"2019-03-01T10:00:01Z"}` + "\n"),
+			Ops: []Op{{K: "start"}, {K: "confirm"}, {K: "persist"}, {K: "stop"}, {K: "start"}}},
+		{B: 256, Rpe: 2, Format: "logfmt", Init: bs(`{"log":"level=info n=1","stream":"stdout","time":"2019-03-01T10:00:00Z"}` + "\n" + "panic: not json at all\n" + `{"log":"level=warn n=2","stream":"stderr","time":"2019-03-01T10:00:01Z"}` + "\n"),
+			Ops: []Op{{K: "start"}, {K: "confirm"}, {K: "confirm"}, {K: "sync"}, {K: "persist"}}},
+		// the batch size at the number of lines: exactly EventMaxRecords lines, one more, and 1001 lines with 1000 per event
+		{B: 64, Rpe: 3, Format: "pure", Init: bs("a\nb\nc\n"), Ops: []Op{{K: "start"}, {K: "confirm"}, {K: "run"}, {K: "stop"}, {K: "start"}}},
+		{B: 64, Rpe: 3, Format: "text", Init: bs("a\nb\nc\nd\n"), Ops: []Op{{K: "start"}, {K: "confirm"}, {K: "confirm"}, {K: "run"}, {K: "persist"}}},
+		{B: 64, Rpe: 1000, Format: "pure", Init: bs(strings.Repeat("\n", 1001)), Ops: []Op{{K: "start"}, {K: "confirm"}, {K: "confirm"}, {K: "persist"}}},
+		// lines at multiples of the buffer: 2B-1, 2B, 2B+1, 3B bytes with the newline; equal neighbours, a prefix of the
+		// neighbour as a line, CR LF
+		{B: 64, Rpe: 2, Format: "pure", Init: bs(strings.Repeat("p", 126) + "\n" + strings.Repeat("q", 127) + "\n" + strings.Repeat("r", 128) + "\n" + strings.Repeat("s", 191) + "\n"),
+			Ops: []Op{{K: "start"}, {K: "confirm"}, {K: "confirm"}, {K: "confirm"}, {K: "confirm"}, {K: "confirm"}, {K: "confirm"}, {K: "persist"}}},
+		{B: 64, Rpe: 3, Format: "text", Init: bs("same\nsame\nsam\nsame\r\n\r\nsame\n"), Ops: []Op{{K: "start"}, {K: "confirm"}, {K: "crash"}, {K: "start"}, {K: "confirm"}, {K: "confirm"}}},
+		// same inode, new content exactly as long as the saved Offset and LastSeenSize (the boundary of both size tests)
+		{B: 64, Rpe: 1, Format: "pure", Init: bs("ab\n"), Ops: []Op{{K: "start"}, {K: "confirm"}, {K: "stop"},
+			{K: "replace", Mode: "truncate", Data: bs("xy\n")}, {K: "start"}, {K: "app", Data: bs("z\n")}, {K: "run"}, {K: "confirm"}}},
+		// a second descriptor: aux.log is scanned, merged (grows, is cut back), saved and loaded beside the path's
+		{B: 64, Rpe: 2, Format: "pure", Aux: true, Init: bs("one\ntwo\nthree\n"), Ops: []Op{{K: "start"}, {K: "aux", Data: bs("more\n")}, {K: "persist"}, {K: "sync"}, {K: "persist"},
+			{K: "confirm"}, {K: "aux", Mode: "truncate"}, {K: "stop"}, {K: "start"}, {K: "confirm"}, {K: "persist"}, {K: "sync"}, {K: "persist"}, {K: "crash"}, {K: "start"}}},
+		// offsets beyond 2^31 and 2^32: the file begins with a hole that the saved state says is shipped
+		{B: 64, Rpe: 1, Format: "pure", Base: 1<<31 - 2, Init: bs("abc\ndef\n"), Ops: []Op{{K: "start"}, {K: "confirm"}, {K: "persist"}, {K: "confirm"}, {K: "stop"}, {K: "app", Data: bs("g\n")}, {K: "start"}, {K: "confirm"}}},
+		{B: 64, Rpe: 2, Format: "text", Base: 1<<32 - 3, Init: bs("abc\ndef\nghi"), Ops: []Op{{K: "start"}, {K: "confirm"}, {K: "crash"}, {K: "start"}, {K: "confirm"}, {K: "sync"}, {K: "persist"}}},
 		// collector.Run as the consumer: a write the server fails is written again (witness of
 		// C17_stored_confirm_on_server_error_refuted), a communication error too; stop, append, start
 		{Stream: "collector", B: 64, Rpe: 2, Format: "pure", Init: bs("1\n2\n3\n4\n"), Ops: []Op{{K: "start"}, {K: "write", Mode: "ok"}, {K: "write", Mode: "srv"},
@@ -1312,7 +1557,7 @@ func corpus() []*Replay {
 	}
 }
 
-const rule = "stream scanner: a file of lines (lengths 0, 1-12, B-1, B, B+1, B+2, 2B+3 incl. newline; bytes incl. NUL, 0x80-0xff, CR, quotes; final newline missing in 1/4; k8json/logfmt: well-formed JSON lines shorter than B) appended in 1-20 pieces cut anywhere, scheduled online against the real scanner: append / release the sleeping worker / confirm or hold the event / persist / graceful stop / crash / start / replace the file (rename+create live - also while a confirmation is pending -, or delete+create / truncate while down) / sync / release or confirm the worker of the rotated-away file; B in {64,65,100} (256 for k8json, logfmt), EventMaxRecords in {1,2,3,1000}, formats pure, text, k8json, logfmt. stream collector: the real collector.Run with a stand-in api.Client: append / release the worker / answer the pending Write call (stored, communication error, failed by the server) / graceful stop / crash / start. A case is non-trivial iff a record was split by the full buffer, an EOF fell inside a line, a worker drained a rotated-away file, or a Write failed; distinct by the Coq case term"
+const rule = "stream scanner: a file of lines (lengths 0, 1-12, B-1, B, B+1, B+2, 2B+3 incl. newline; bytes incl. NUL, 0x80-0xff, CR, quotes; final newline missing in 1/4; k8json/logfmt: JSON log lines, 1/6 of them longer than B, 1/12 lines that are no JSON) appended in 1-20 pieces cut anywhere, scheduled online against the real scanner: append / release the sleeping worker / confirm or hold the event / persist / graceful stop / crash / start / replace the file (rename+create live - also while a confirmation is pending -, or delete+create / truncate while down) / sync / release or confirm the worker of the rotated-away file; B in {64,65,100,128} (256, 128 for k8json, logfmt), EventMaxRecords in {1,2,3,1000}, formats pure, text, k8json, logfmt. stream collector: the real collector.Run with a stand-in api.Client: append / release the worker / answer the pending Write call (stored, communication error, failed by the server) / graceful stop / crash / start. Also: equal and prefix neighbours, lines of 2B-1..3B+1 bytes, EventMaxRecords at the number of lines (-1, 0, +1), k8json/logfmt lines longer than B and lines that are no JSON, a second descriptor without a worker (aux.log) in 1/4, a hole of 2^31-2 / 2^32-3 / 2^32+1 bytes before the content in 1/10. A case is non-trivial iff a record was split by the full buffer, an EOF fell inside a line, a worker drained a rotated-away file, or a Write failed; distinct by the Coq case term"
 
 func main() {
 	Main("C17", "C17K", func(c *Ctx) error {
@@ -1340,12 +1585,22 @@ func main() {
 		}
 		for i := 0; i < n; i++ {
 			r := c.Rng.Fork()
-			rp := &Replay{B: r.PickInt(64, 64, 64, 65, 100), Rpe: r.PickInt(1, 2, 3, 3, 1000), Format: r.PickStr("pure", "pure", "pure", "text", "text", "k8json", "logfmt"), steps: r.PickInt(12, 25, 40, 60)}
+			rp := &Replay{B: r.PickInt(64, 64, 64, 65, 100, 128), Rpe: r.PickInt(1, 2, 3, 3, 1000), Format: r.PickStr("pure", "pure", "pure", "text", "text", "k8json", "logfmt"), steps: r.PickInt(12, 25, 40, 60)}
 			if rp.Format == "k8json" || rp.Format == "logfmt" {
-				rp.B = 256
+				rp.B = r.PickInt(256, 256, 128)
 			}
 			if r.Chance(1, 2) {
 				rp.Init = flat((&lineGen{format: rp.Format}).pieces(r, rp.B, r.PickInt(10, 100, 200)))
+			}
+			if nl := bytes.Count(rp.Init, []byte{'\n'}); nl > 0 && r.Chance(1, 5) {
+				rp.Rpe = nl + r.PickInt(-1, 0, 0, 1) // the batch size at the number of lines there are: one less, exactly, one more
+				if rp.Rpe < 1 {
+					rp.Rpe = 1
+				}
+			}
+			rp.Aux = r.Chance(1, 4)
+			if r.Chance(1, 10) {
+				rp.Base = int64(r.PickInt(1<<31-2, 1<<32-3, 1<<32+1))
 			}
 			jobs = append(jobs, job{rp, r})
 		}
